@@ -1,19 +1,8 @@
 \* the idealised design (D5, D6 repaired) satisfies NothingLeft and ConnectHonoursContext
 SPECIFICATION Spec
 CONSTANTS
-  NC = 2
-  SASet = {TRUE}
-  OAuthSet = {FALSE}
-  DelSet = {"ok"}
-  PostSet = {"json", "sse", "404", "http"}
-  GetSet = {"sse", "405"}
-  InitH = {"A"}
-  HSet = {""}
-  MaxNotify = 0
-  MaxSaEv = 0
-  MaxAuth = 0
-  MaxClose = 1
-  AllowCancel = TRUE
+  NC = 3
+  Profiles <- ProfIdeal
   FixCancel = TRUE
   FixStream = TRUE
 INVARIANTS TypeOK SessionHeader VersionHeader OnePostPerMessage Standalone PerMessage Usable GoneStops GoneNoDelete GoneFailsAll
